@@ -136,7 +136,7 @@ CHECKS.update({
 
 CHECKS.update({
     "C20": dict(
-        text="for every value of a struct with an attribute, three list fields (strings incl. empty, nested structs with their own lists a and b, units) and a scalar, 0..2/3 items per list, EVERY order-preserving interleaving of its children and of the children of each nested item is deserialized without a limit and with every event_buffer_size from 1 to events+1: unlimited gives the value whose contiguous serialization (checked against to_string) was interleaved; limited gives that value or TooManyEvents, monotonically, failing exactly when a reference count of simultaneously held skipped events exceeds the limit",
+        text="for every value of a struct with an attribute, three list fields (strings incl. empty, nested structs with their own lists a and b, units) and a scalar, 0..2/3 items per list, EVERY order-preserving interleaving of its children and of the children of each nested item is deserialized without a limit and with every event_buffer_size from 1 to events+1: unlimited gives the value whose contiguous serialization (checked against to_string) was interleaved; limited gives that value or TooManyEvents, monotonically, failing whenever the limit is below a reference count of simultaneously held skipped events (the converse is measured, not demanded)",
         note="`full` build only (overlapped-lists); the reference count is written from the documentation of event_buffer_size (siblings that are not items of the list being collected are held until the parent ends; nested collections add up) and agreed with the implementation on every explored document",
         technique="exhaustive enumeration of sibling interleavings x buffer limits on the real deserializer against a reference replay-buffer count",
     ),
